@@ -9,6 +9,7 @@ import (
 	"sort"
 	"strconv"
 	"strings"
+	"sync"
 	"time"
 
 	"github.com/vicanso/pike/config"
@@ -135,6 +136,7 @@ func init() {
 		c.Out.Rule = "enumeration through the full handler chain: origin encoding {identity,gzip,br,lz4,zst,snz} x 9 bodies (empty, 1 B, around the 1 KiB threshold, incompressible 4 KiB, 11x and 100x compressible, 64 KiB) x content type {text/plain, application/json, image/png, absent} x client Accept-Encoding (9 values) on the paths {fetching request, later hits, hit restored from the store after a restart, hit-for-pass pass-through, POST}; then one factor at a time: status codes, min-length, filter, levels, header sets; plus every bounded schedule of two identity clients hitting compressed-only entries (a scheduling point precedes the response write) and of a fetcher with a waiter; oracle: decoded body byte-identical, Content-Encoding accepted or absent, Content-Length consistent, status and end-to-end headers equal"
 		c.Out.Assume = []string{"reference codecs decode what the client receives", "Accept-Encoding is a plain list of codings"}
 		c05RealOriginFaults(c)
+		c05RealSlowOrigin(c)
 		bodies := c05Bodies()
 		var bnames []string
 		for k := range bodies {
@@ -384,6 +386,71 @@ func init() {
 // their context) in front of a real loopback origin whose answers are cut short in enumerated ways. A response
 // that reaches the client as a complete 200 must carry the origin's complete body — on the fetching request,
 // on repeats and on hits.
+// c05RealSlowOrigin: an origin that takes 11 s to answer (no proxy timeout configured): the fetching client and the
+// client waiting behind it both receive the complete answer — nothing on pike's side cuts a slow but healthy exchange.
+func c05RealSlowOrigin(c *Ctx) {
+	if !c.Want("real-slow-origin") || c.Shard != 5%c.NShards {
+		return
+	}
+	st := c.Stat("real-slow-origin", "enumeration")
+	st.Bounds = "loopback origin answering a cacheable 4000-byte body after 11 s; two simultaneous GETs over TCP to pike's own listener (client timeout 30 s), then a third: all three receive status 200 and the complete body"
+	full := []byte(c20Payload(4000))
+	origin := httptest.NewUnstartedServer(http.HandlerFunc(func(w http.ResponseWriter, r *http.Request) {
+		time.Sleep(11 * time.Second)
+		w.Header().Set("Content-Type", "text/plain")
+		w.Header().Set("Cache-Control", "max-age=600")
+		w.Write(full)
+	}))
+	origin.Config.SetKeepAlivesEnabled(false)
+	origin.Start()
+	defer origin.Close()
+	cfg := &config.PikeConfig{
+		Caches:    []config.CacheConfig{{Name: "c1", Size: 100, HitForPass: "5m"}},
+		Upstreams: []config.UpstreamConfig{{Name: "u", Servers: []config.UpstreamServerConfig{{Addr: origin.URL}}}},
+		Locations: []config.LocationConfig{{Name: "l", Upstream: "u"}},
+		Servers:   []config.ServerConfig{{Addr: "127.0.0.1:0", Locations: []string{"l"}, Cache: "c1"}},
+	}
+	env.Silence()
+	env.FreshAll()
+	procEnv = nil
+	if err := env.Apply(cfg); err != nil {
+		c.Violation("real-slow-origin", "harness-apply", err.Error(), nil, nil, nil)
+		return
+	}
+	defer env.FreshAll()
+	listen := server.Get("127.0.0.1:0").GetListenAddr()
+	client := &http.Client{Timeout: 30 * time.Second, Transport: &http.Transport{DisableKeepAlives: true, DisableCompression: true}}
+	get := func(i int) string {
+		resp, err := client.Get("http://" + listen + "/slow")
+		if err != nil {
+			return fmt.Sprintf("request %d: %v", i, err)
+		}
+		body, rerr := io.ReadAll(resp.Body)
+		resp.Body.Close()
+		if resp.StatusCode != 200 || rerr != nil || !bytes.Equal(body, full) {
+			return fmt.Sprintf("request %d: status %d (%s), %d of %d bytes, read error %v", i, resp.StatusCode, resp.Header.Get("X-Status"), len(body), len(full), rerr)
+		}
+		return ""
+	}
+	res := make([]string, 3)
+	var wg sync.WaitGroup
+	for i := 0; i < 2; i++ {
+		wg.Add(1)
+		go func(i int) { defer wg.Done(); res[i] = get(i) }(i)
+		time.Sleep(300 * time.Millisecond)
+	}
+	wg.Wait()
+	res[2] = get(2)
+	for i, r := range res {
+		st.Execs++
+		if r != "" {
+			c.Violation("real-slow-origin", "slow-answer-not-delivered", "the origin answers completely after 11 s; "+r, nil, map[string]interface{}{"request": i}, nil)
+		}
+	}
+	st.States, st.Transitions, st.Nontrivial = st.Execs, st.Execs, st.Execs
+	st.NOutcomes = 1
+}
+
 func c05RealOriginFaults(c *Ctx) {
 	if !c.Want("real-origin-faults") || c.Shard != 0 {
 		return
